@@ -150,6 +150,9 @@ def try_assign(chart):
 def run_sequence(sid, ops, text, other, want=None):
     chart = parse(text, want)
     twin = parse(text, want)
+    # a second twin that is NEVER read, only compared: observing the first twin (to check that it does not change
+    # either) fills the same caches as observing the chart and would hide a cache that leaks into equality
+    untouched = parse(text, want)
     recs = []
     before = observe.digest(observe.obs_chart(chart))
     twin_before = observe.digest(observe.obs_chart(twin))
@@ -169,8 +172,8 @@ def run_sequence(sid, ops, text, other, want=None):
         after = observe.digest(observe.obs_chart(chart))
         twin_after = observe.digest(observe.obs_chart(twin))
         try:
-            eq1 = bool(chart == twin)
-            eq2 = bool(twin == chart)
+            eq1 = bool(chart == twin) and bool(chart == untouched)
+            eq2 = bool(twin == chart) and bool(untouched == chart)
         except Exception:  # noqa: BLE001
             eq1 = eq2 = False
         render_after = _render(chart)
